@@ -173,7 +173,9 @@ func (vc *VC) modLocs(fi *FuncInfo, items []*ModItem, args []SV, st *State) []Lo
 		case *types.Slice:
 			tk := typeKey(u.Elem())
 			vc.eng.tkTypes[tk] = u.Elem()
-			out = append(out, Loc{Space: 'E', TK: tk, Ref: inner.L[0], Desc: m.Expr + "[*]"})
+			vc.assume(sliceWF(inner.L[0], inner.L[1], inner.L[2], inner.L[3]))
+			out = append(out, Loc{Space: 'E', TK: tk, Ref: inner.L[0], Desc: m.Expr + "[*]",
+				WinLo: inner.L[1], WinLen: inner.L[3]})
 		case *types.Map:
 			mi := vc.eng.mapInfoOf(t)
 			out = append(out, Loc{Space: 'M', TK: mi.Key, Ref: inner.L[0], Desc: m.Expr + "[*]"})
@@ -421,6 +423,22 @@ func (vc *VC) gcIntrinsic(fr *Frame, inst *ssa.Function, args []SV) ([]SV, bool)
 		return []SV{scalar(and(cs...))}, true
 	case "gcSameArray":
 		return []SV{scalar(eq(args[0].L[0], args[1].L[0]))}, true
+	case "gcSameStorage":
+		return []SV{scalar(and(eq(args[0].L[0], args[1].L[0]), eq(args[0].L[1], args[1].L[1]), eq(args[0].L[3], args[1].L[3])))}, true
+	case "gcWithin":
+		// the first slice's [off, off+cap) window lies inside the second's; same
+		// difference form as frameCheck so that window inclusion is transitive by
+		// syntactic matching alone
+		a, b := args[0], args[1]
+		d := "(bvsub " + a.L[1] + " " + b.L[1] + ")"
+		alts := []string{and(eq(a.L[0], b.L[0]), "(bvsle (_ bv0 64) "+d+")", "(bvsle "+d+" "+b.L[3]+")", "(bvsle "+a.L[3]+" (bvsub "+b.L[3]+" "+d+"))")}
+		if chain := vc.provChain(a.L[1]); len(chain) > 0 {
+			// equivalent in exact arithmetic, but provable from header equalities alone
+			for _, p := range chain {
+				alts = append(alts, and(eq(a.L[0], b.L[0]), eq(p.pOff, b.L[1]), eq(p.pCap, b.L[3]), "(bvsle "+a.L[3]+" "+chain[0].rCap+")"))
+			}
+		}
+		return []SV{scalar(or(alts...))}, true
 	case "gcImplies":
 		return []SV{scalar(implies(args[0].L[0], args[1].L[0]))}, true
 	case "gcForall", "gcExists":
@@ -574,7 +592,8 @@ func (vc *VC) appendOp(fr *Frame, c *ssa.CallCommon, args []SV) SV {
 	if vc.pure == 0 && !vc.rootModsAll {
 		saved := vc.st.Cond
 		vc.st.Cond = vc.def("Bool", and(saved, fits, not(eq(tlen, bvLitI(0, 64)))))
-		vc.frameCheck(Loc{Space: 'E', TK: tk, Ref: sbase}, "append")
+		vc.frameCheck(Loc{Space: 'E', TK: tk, Ref: sbase, WinLo: "(bvadd " + soff + " " + slen + ")", WinLen: "(bvsub " + newlen + " " + slen + ")",
+			ParentOff: soff, ParentCap: scap, LenOK: fits}, "append")
 		vc.st.Cond = saved
 	}
 	names, sorts, sarr := vc.elemArrays(et, sbase)
@@ -589,7 +608,7 @@ func (vc *VC) appendOp(fr *Frame, c *ssa.CallCommon, args []SV) SV {
 		src := fmt.Sprintf("(select %s (ix %s (bvsub %s %s)))", T, toff, i, slen)
 		body := fmt.Sprintf("(= (select %s (ix %s %s)) (ite (and (bvsle (_ bv0 64) %s) (bvslt %s %s)) (select %s (ix %s %s)) (ite (and (bvsle %s %s) (bvslt %s %s)) %s (ite %s (select %s (ix %s %s)) %s))))",
 			R, roff, i, i, i, slen, S, soff, i, slen, i, i, newlen, src, fits, S, soff, i, zeroOfSort(els[j]))
-		vc.assume("(forall ((" + i + " (_ BitVec 64))) (! " + body + " :pattern ((select " + R + " (ix " + roff + " " + i + ")))))")
+		vc.assume("(forall ((" + i + " (_ BitVec 64))) (! " + body + " :pattern ((select " + R + " (ix " + roff + " " + i + "))) :pattern ((select " + S + " (ix " + soff + " " + i + ")))))")
 		// in-place case: everything outside the window keeps its value
 		vc.assume(implies(fits, fmt.Sprintf("(forall ((%s (_ BitVec 64))) (! (=> (not (and (bvsle (bvadd %s %s) %s) (bvslt %s (bvadd %s %s)))) (= (select %s %s) (select %s %s))) :pattern ((select %s %s))))",
 			i, soff, slen, i, i, soff, newlen, R, i, S, i, R, i)))
@@ -615,7 +634,7 @@ func (vc *VC) copyOp(fr *Frame, c *ssa.CallCommon, args []SV) SV {
 	if vc.pure == 0 && !vc.rootModsAll {
 		saved := vc.st.Cond
 		vc.st.Cond = vc.def("Bool", and(saved, not(eq(n, bvLitI(0, 64)))))
-		vc.frameCheck(Loc{Space: 'E', TK: tk, Ref: d.L[0]}, "copy")
+		vc.frameCheck(Loc{Space: 'E', TK: tk, Ref: d.L[0], WinLo: d.L[1], WinLen: n}, "copy")
 		vc.st.Cond = saved
 	}
 	names, sorts, darr := vc.elemArrays(et, d.L[0])
